@@ -143,14 +143,11 @@ def _opaque_inverse(m):
     key = _mat_key(m)
     n = m.shape[0]
     out = NP.zeros((n, n), m.dt if m.dt == _C else _F)
-    cache = {}
-
     def val(env, i, j):
-        kk = id(env)
-        if kk not in cache:
-            cache.clear()
-            cache[kk] = _np.linalg.inv(_native_of(m, env))
-        return cache[kk][i, j].real
+        ck = ("inv", key)
+        if ck not in env:
+            env[ck] = _np.linalg.inv(_native_of(m, env))
+        return env[ck][i, j].real
     for i in range(n):
         for j in range(n):
             sid = T.defined("opaque", ("inv", key, i, j), (lambda env, i=i, j=j: val(env, i, j), ()), name=None)
@@ -207,15 +204,12 @@ class LinAlgError(ValueError):
 def _eig_symbols(m, tag, hermitian=True):
     key = _mat_key(m)
     n = m.shape[0]
-    cache = {}
-
     def decomp(env):
-        kk = id(env)
-        if kk not in cache:
-            cache.clear()
+        ck = (tag, key)
+        if ck not in env:
             M = _native_of(m, env)
-            cache[kk] = _np.linalg.eigh(M) if hermitian else _np.linalg.eig(M)
-        return cache[kk]
+            env[ck] = _np.linalg.eigh(M) if hermitian else _np.linalg.eig(M)
+        return env[ck]
     w = NP.zeros((n,), _F)
     for k in range(n):
         sid = T.defined("opaque", (tag, "w", key, k), (lambda env, k=k: decomp(env)[0][k].real, ()))
@@ -292,15 +286,12 @@ def expm(m):
     m = _A(m)
     key = _mat_key(m)
     n = m.shape[0]
-    cache = {}
-
     def val(env, i, j):
-        kk = id(env)
-        if kk not in cache:
-            cache.clear()
+        ck = ("expm", key)
+        if ck not in env:
             import scipy.linalg
-            cache[kk] = scipy.linalg.expm(_native_of(m, env))
-        return cache[kk][i, j].real
+            env[ck] = scipy.linalg.expm(_native_of(m, env))
+        return env[ck][i, j].real
     out = NP.zeros((n, n), m.dt)
     for i in range(n):
         for j in range(n):
